@@ -957,6 +957,46 @@ func runC03(c *Ctx) {
 	// R11 watcher context lives until the function returns
 	c.Rule("R11")
 	c03R11(c)
+
+	// R14 a per-peer query function of the standard client's value search that holds a valid
+	// record can abandon its send once the search was stopped: the consumer stops reading after a
+	// quorum abort, and these functions run under the lookup's (= the caller's) context, so the
+	// context arm alone lets them — and the lookup goroutine waiting for them — block until the
+	// caller's context ends, which a caller need not ever do (finding D19)
+	c.Rule("R14")
+	{
+		f := c.Fn("(*dht.IpfsDHT).getValues")
+		stop := paramObj(f, "stopQuery")
+		n := 0
+		var visit func(g *eng.Func, depth int)
+		visit = func(g *eng.Func, depth int) {
+			if depth >= 2 {
+				ginfo := g.Info()
+				for _, sel := range g.Selects() {
+					isValSend, hasStop := false, false
+					for _, sc := range eng.SelectCases(ginfo, sel) {
+						if sc.Kind == "send" {
+							if tv, ok := ginfo.Types[sc.Chan]; ok && strings.Contains(tv.Type.String(), "recvdVal") {
+								isValSend = true
+							}
+						}
+						if sc.Kind == "recv" && stop != nil && eng.IsObj(ginfo, sc.Chan, stop) {
+							hasStop = true
+						}
+					}
+					if isValSend {
+						n++
+						c.Check(K(g.Name, "value send can be abandoned after an abort"), sel.Pos(), hasStop, "a worker of the value search that holds a valid record stops waiting to hand it over once the search was stopped (the consumer no longer reads)", "the send's only escape is the caller's context: after a quorum abort the worker, and the lookup that waits for it, stay blocked until the caller's context ends — also across Close")
+					}
+				}
+			}
+			for _, l := range g.Lits {
+				visit(l, depth+1)
+			}
+		}
+		visit(f, 0)
+		c.Check(K(f.Name, "worker value sends"), f.Pos(), n == 1 && stop != nil, "the per-peer query function hands valid records to the consumer in one place", "found "+itoa(n))
+	}
 }
 
 // c03R11: the optimistic provide's watcher ends with the function (shared with C06.R8: puts
